@@ -6,6 +6,7 @@ import (
 	"strings"
 
 	"gonum.org/v1/gonum/internal/verif/vhook"
+	"gonum.org/v1/gonum/internal/verif/vlib"
 )
 
 // prof is one answer set of the Ilaenv/Iparmq seam. Zero/negative fields mean
@@ -155,12 +156,12 @@ func (p prof) install() (*callLog, func()) {
 	}
 }
 
-// profSet returns the profiles of a tier: quick uses the first nq seam profiles.
-func profSet(thorough bool, nq int) []prof {
-	if thorough {
+// profSet returns the seam profiles of a level: level 0 uses the first n0, the others all five.
+func profSet(g *vlib.G, n0 int) []prof {
+	if lvl(g) >= 1 {
 		return profiles
 	}
-	return profiles[:nq]
+	return profiles[:n0]
 }
 
 // report adds the seam call counts of a case to the evidence counters: how
